@@ -74,6 +74,24 @@ def templates(tier="quick"):
         T.append(scenario("c07/restat_deps_%s_list_changes/built" % kind, "c07", [v0, v1], files={"h2": "h2-v0\n"}, ops=ops,
                           init=[plain + 2], depth=d, tags=["crash", "built", "restat", "deps"]))
 
+    # the manifest itself is an output (generator statement): interrupts and deaths while it is being regenerated
+    def regen(name, ver):
+        return Variant(name, [Stmt("build.ninja", ex=["build.ninja.in"], generator=True, copy=True),
+                              Stmt("a", ex=["s"], ver=ver), Stmt("b", ex=["a"])], defaults=["b"])
+    va, vb = regen("m0", 0), regen("m1", 1)
+    rops = [{"op": "write", "path": "build.ninja.in", "content": vb.manifest(), "label": "build.ninja.in:=m1"},
+            {"op": "write", "path": "build.ninja.in", "content": va.manifest(), "label": "build.ninja.in:=m0"},
+            {"op": "edit", "path": "s", "label": "edit s"},
+            ninja_op(j=1), ninja_op(j=2),
+            dict(ninja_op(j=2, subsets=False, label="ninja -j2 [killed at every operation]"), crash=True),
+            ninja_op(j=2, interrupt=True),
+            ninja_op(j=2, faults={"build.ninja": {"signal": True, "touch": True}},
+                     label="ninja -j2 child build.ninja dies of SIGINT after touching its output"),
+            ninja_op(j=2, faults={"build.ninja": {"signal": True}},
+                     label="ninja -j2 child build.ninja dies of SIGINT before touching its output")]
+    T.append(scenario("c07/manifest_regen/built", "c07", [va, vb], files={"build.ninja.in": va.manifest(), "s": "s-v0\n"}, ops=rops,
+                      init=[3], depth=d, tags=["crash", "built", "manifest-regen"]))
+
     # log recompaction: a build log with > 100 dead entries and a deps log with > 1000 dead records
     v = Variant("v0", [Stmt("obj", ex=["src"], hidden=["hdr"], deps="gcc"), Stmt("exe", ex=["obj"])])
     log = "# ninja log v7\n" + "".join("0\t1\t1700000000000000000\tdead%d\tabcdef%d\n" % (i, i) for i in range(130))
